@@ -84,6 +84,87 @@ class aggregate_partition:
               'max_over': 'none', 'stdev_over': 'none', 'count_over': 'none', 'apply': 'none'}
     may_raise = [SerifValueError]
     stop_after = ('agg_partition_inv',)
+    quant_prune = False
 
     def requires(self, over, sum_over):
         return S.rect(self)
+
+
+# ================================================================== inner_join (C09, C11)
+IJ = 'serif.table.Table.inner_join'
+represent(IJ, right_index='symdict', duplicates='symdict', left_keys_seen='symset:key', result_data='list_of_symlist')
+
+
+@contract('serif.table.Table._validate_join_keys', props=[])
+class validate_join_keys:
+    """Assumed at call sites (bounded under C09): for key specs given as Vectors of the tables'
+    lengths it returns the one pair (left key, right key); malformed specs raise."""
+    params = {'self': 'opaque', 'other': 'opaque', 'left_on': 'opaque', 'right_on': 'opaque'}
+    trusted = True
+    from serif.errors import SerifTypeError as _T, SerifKeyError as _K
+    may_raise = [SerifValueError, _T, _K]
+
+    def returns(left_on, right_on):
+        return [(left_on, right_on)]
+
+
+@contract('serif.table.Table._validate_key_tuple_hashable', props=[])
+class validate_key_tuple_hashable:
+    params = {'key_tuple': 'opaque', 'key_cols': 'opaque', 'row_idx': 'int'}
+    trusted = True
+    from serif.errors import SerifTypeError as _T
+    may_raise = [_T]
+
+
+def _row_key(cols, e):
+    return mk_key(*[S.at(c._underlying, e) for c in cols])
+
+
+def ij_ghost_init():
+    return {'rpos': S.ghost_zero_int(), 'dupkey': mk_key(0)}
+
+
+def ij_index_ghost_step(k, right_keys, right_index, rpos):
+    k0 = _row_key(right_keys, k)
+    return {'rpos': upd(rpos, k, blen(right_index, k0) - 1)}
+
+
+@loop_invariant(IJ, 'for row_idx in range(right_nrows)', havoc={'right_index': 'symdict', 'duplicates': 'symdict'},
+                ghost={'rpos': 'intarr'}, ghost_init=ij_ghost_init, ghost_step=ij_index_ghost_step)
+def ij_index_inv(k, right_keys, right_index, check_right_unique, rpos, duplicates=None):
+    """After k right rows: bucket(key) is exactly the ascending list of right rows < k with that
+    key; `duplicates` is non-empty iff uniqueness is checked and some key occurs twice."""
+    d = right_index
+    return (
+        forall('k', lambda q: blen(d, q) >= 0)
+        and forall('ki', lambda q, p: implies(0 <= p < blen(d, q), 0 <= bat(d, q, p) < k and _row_key(right_keys, bat(d, q, p)) == q))
+        and forall('kii', lambda q, p, r: implies(0 <= p < r < blen(d, q), bat(d, q, p) < bat(d, q, r)))
+        and forall('i', lambda e: implies(0 <= e < k, 0 <= sel(rpos, e) < blen(d, _row_key(right_keys, e))
+                                           and bat(d, _row_key(right_keys, e), sel(rpos, e)) == e))
+        # cardinality bookkeeping (C11): recorded duplicates are real, and every real one is recorded
+        and (duplicates is None or _dup_exact(d, duplicates))
+    )
+
+
+def _dup_exact(d, duplicates):
+    return (dcount(duplicates) >= 0
+            and forall('k', lambda q: blen(duplicates, q) >= 0)
+            and forall('k', lambda q: implies(blen(duplicates, q) >= 1, blen(d, q) >= 2))
+            and forall('k', lambda q: implies(blen(d, q) >= 2, blen(duplicates, q) >= 1 and dcount(duplicates) >= 1))
+            and implies(dcount(duplicates) >= 1, blen(duplicates, dord(duplicates, 0)) >= 1))
+
+
+@contract(IJ, props=['C09', 'C11'], variant='index-build')
+class inner_join_index:
+    """C09/C11 (index build, one key column per side, any number of rows): the hash index maps
+    every key to the ascending list of the right rows carrying it, and the duplicate record is
+    exact (invariant `ij_index_inv`: initiation + consecution on the real loop)."""
+    params = {'self': 'table1', 'other': 'table1', 'left_on': 'dvector', 'right_on': 'dvector', 'expect': 'str'}
+    from serif.errors import SerifTypeError as _T, SerifKeyError as _K
+    may_raise = [SerifValueError, _T, _K]
+    stop_after = ('ij_index_inv',)
+    quant_prune = False
+
+    def requires(self, other, left_on, right_on):
+        return S.rect(self) and S.rect(other) and S.truthful(right_on) and S.truthful(left_on) and \
+            len(right_on._underlying) == other._length and len(left_on._underlying) == self._length
